@@ -18,9 +18,13 @@ AST
            {"k":"for","v":name,"lo":int,"hi":e,"b":[stmt]}   (for (v = lo; v < hi; v++), v is i32, hi evaluated each time)
            {"k":"switch","e","cases":[{"v":int|None,"b":[stmt],"brk":bool}]}
            {"k":"break"} | {"k":"continue"} | {"k":"ret","e"} | {"k":"expr","e"}
+           {"k":"seq","b":[stmt]}   (statements in the enclosing scope, rendered without braces)
  lv        {"k":"var","n"} | {"k":"idx","a","e"} | {"k":"fld","s","f"} | {"k":"deref","p","e"}   (p[e])
  expr      lv | {"k":"lit","ty","v"} | {"k":"un","op","a"} | {"k":"bin","op","a","b"} | {"k":"cast","ty","a"}
            | {"k":"cond","c","a","b"} | {"k":"call","f","args"} | {"k":"addr","a","e"}   (&a[e], pointer into a global array)
+
+Other entry points: to_src (the AST as tla/Src.tla reads it), src_args, render_gcc_main (reference harness for
+gcc), sanitize (the same program without given construct classes), DEFAULT_FEATURES / C01_FEATURES (generator options).
 """
 
 TYPES = ["c8", "u8", "i16", "u16", "i32", "u32", "i64", "u64"]
